@@ -1,6 +1,9 @@
 package simrt
 
-import "time"
+import (
+	"sync/atomic"
+	"time"
+)
 
 // TimerHandle is a live timer in the event heap.
 type TimerHandle struct {
@@ -9,6 +12,8 @@ type TimerHandle struct {
 }
 
 // AddChanTimer registers a timer whose firing performs send (a non-blocking send on its channel).
+//
+//go:norace
 func (k *Kernel) AddChanTimer(d, period time.Duration, site string, send func(now time.Time), key uintptr) *TimerHandle {
 	e := k.addEvent(d, period, evChan, site, func(k *Kernel) {
 		send(k.Epoch.Add(k.now))
@@ -18,22 +23,35 @@ func (k *Kernel) AddChanTimer(d, period time.Duration, site string, send func(no
 }
 
 // AddFuncTimer registers a timer whose firing starts f as a new library actor.
+//
+//go:norace
 func (k *Kernel) AddFuncTimer(d time.Duration, site string, f func()) *TimerHandle {
+	// real AfterFunc: everything before the call happens-before the callback. The kernel starts the
+	// callback from whichever goroutine advances the clock, so recreate that edge for the race detector.
+	var hb uint32
+	atomic.StoreUint32(&hb, 1)
 	e := k.addEvent(d, 0, evFunc, site, func(k *Kernel) {
 		a := k.newActor(site, true, -1)
-		k.startActor(a, f)
+		k.startActor(a, func() {
+			atomic.LoadUint32(&hb)
+			f()
+		})
 	})
 	return &TimerHandle{k: k, e: e}
 }
 
 // AddExternal registers an instant at which something outside the kernel fires (a std context deadline):
 // the clock must reach it; every blocked actor is re-enabled afterwards.
+//
+//go:norace
 func (k *Kernel) AddExternal(d time.Duration, site string) *TimerHandle {
 	e := k.addEvent(d, 0, evExternal, site, func(k *Kernel) { k.NotifyAll() })
 	return &TimerHandle{k: k, e: e}
 }
 
 // Stop cancels the timer; it reports whether the timer was still pending.
+//
+//go:norace
 func (h *TimerHandle) Stop() bool {
 	if h.e.dead {
 		return false
@@ -43,6 +61,8 @@ func (h *TimerHandle) Stop() bool {
 }
 
 // Reset re-arms a one-shot timer.
+//
+//go:norace
 func (h *TimerHandle) Reset(d time.Duration) bool {
 	was := !h.e.dead
 	k := h.k
@@ -53,6 +73,8 @@ func (h *TimerHandle) Reset(d time.Duration) bool {
 }
 
 // ResetPeriod changes a ticker's period.
+//
+//go:norace
 func (h *TimerHandle) ResetPeriod(d time.Duration) {
 	k := h.k
 	h.e.dead = true
